@@ -133,6 +133,36 @@ impl Mon<'_> {
                     }
                 }
             }
+            if self.rng.chance(1, 7) {
+                // read_exact: within what is left it delivers exactly those bytes; asked for more than is left it must fail,
+                // never succeed with bytes that lie beyond the view
+                let left = exp.len() - got.len();
+                let over = self.rng.chance(1, 2);
+                let k = if over { left + 1 + self.rng.usize_below(16) } else { self.rng.usize_below(left + 1) };
+                let mut buf = vec![0u8; k];
+                match s.read_exact(&mut buf) {
+                    Ok(()) if over => {
+                        self.bad(label, format!("{label}: read_exact of {k} bytes succeeded on a stream with {left} bytes left"));
+                        return;
+                    }
+                    Ok(()) => {
+                        got.extend_from_slice(&buf);
+                        self.out.obs.inc("views.read_exact");
+                        continue;
+                    }
+                    Err(_) if over => {
+                        self.out.obs.inc("views.read_exact_past_end_refused");
+                        if got[..] != exp[..got.len()] {
+                            self.bad(label, format!("{label}: bytes streamed before a refused read_exact differ from the content"));
+                        }
+                        return;
+                    }
+                    Err(e) => {
+                        self.bad(label, format!("{label}: read_exact of {k} bytes with {left} left fails: {e}"));
+                        return;
+                    }
+                }
+            }
             let mut buf = vec![0u8; want];
             match s.read(&mut buf) {
                 Ok(0) => {
